@@ -138,6 +138,8 @@ def _file_cases(rng, n):
         c = arlfmt.gen(rng)
         # half of the time another packed file (its own levels and variables) is opened before the first one is read
         out.append(dict(kind='file', spec=c, rows=[[0, 1]], other=arlfmt.gen(rng) if rng.random() < 0.5 else None))
+    # on every run: a lat/lon grid of two columns (or two rows), the smallest the property quantifies over
+    out.append(dict(kind='file', spec=arlfmt.gen(rng, small=2), rows=[[0, 1]], other=None))
     return out
 
 
